@@ -1,10 +1,10 @@
 (* C15 -- splitting and cleaning a curve never change the curve.  Statements only; proofs in
    Lemmas/SplitClean.v.  Range: closed curves made of STRAIGHT segments, all rational data, all
-   lists of (segment index, parameter) pairs -- whenever split returns (it raises IndexError on
-   two equal parameters on one segment: known finding F15, C15_refuted below).  Curved pieces
+   lists of (segment index, parameter) pairs, repeated and nearly equal ones included (split is
+   total on valid requests: C15_split_total; F15/F15c repaired).  Curved pieces
    (pynurbs knot insertion + least-squares degree reduction) are covered by the oracle only. *)
 From Coq Require Import List Sorted.
-From SV Require Import Spec.Spec Lemmas.Lines Lemmas.SplitClean.
+From SV Require Import Spec.Spec Lemmas.Lines Lemmas.SplitClean Lemmas.SplitTotal.
 Open Scope Q_scope.
 
 (* each piece retraces its part of the original segment:
@@ -28,10 +28,24 @@ Theorem C15_no_zero_piece : forall a b ts, StronglySorted Qlt ts -> (forall t, I
 Proof. exact split_many_nondegenerate. Qed.
 Print Assumptions C15_no_zero_piece.
 
-(* the parameters actually used are the requested ones minus those within 1e-6 of 0 or 1 *)
+(* the parameters actually used are requested ones, none within 1e-6 of 0 or 1 (and none within
+   1e-6 of another used one: C15_used_nodes_apart) *)
 Theorem C15_ignored_nodes : forall idx nodes i t,
-  In t (split_nodes idx nodes i) <-> In (i, t) (combine idx nodes) /\ near01 t = false.
+  In t (split_nodes idx nodes i) -> In (i, t) (combine idx nodes) /\ near01 t = false.
 Proof. exact split_nodes_In. Qed.
+Theorem C15_used_nodes_apart : forall idx nodes i,
+  StronglySorted (fun a b => tol6 <= b - a) (split_nodes idx nodes i).
+Proof. exact split_nodes_apart. Qed.
+(* totality: every request with indexes in range and parameters in [0,1] is served -- repeated,
+   nearly equal and near-0/1 parameters included *)
+Theorem C15_split_total : forall j idx nodes,
+  forallb (fun i => (i <? length j)%nat) idx = true ->
+  forallb (fun u => negb (out01 u)) nodes = true ->
+  length idx = length nodes ->
+  exists j', Jordan.split j idx nodes = Ok j'.
+Proof. exact split_total. Qed.
+Print Assumptions C15_used_nodes_apart.
+Print Assumptions C15_split_total.
 
 (* curve level: enclosed area, winding number about every point (hence orientation and point
    set of the region), straightness and closedness are unchanged by ANY split that returns *)
@@ -63,13 +77,14 @@ Print Assumptions C15_clean_idempotent.
 Print Assumptions C15_clean_complete.
 Print Assumptions C15_clean_wn.
 
-(* split followed by clean gives back the original segmentation, and a duplicated parameter
-   raises (F15): concrete instances *)
+(* split followed by clean gives back the original segmentation: concrete instances *)
 Example C15_nonvacuous :
   let sq := [[(0,0);(2,0)];[(2,0);(2,2)];[(2,2);(0,2)];[(0,2);(0,0)]] in
   (do j' <- Jordan.split sq [0%nat; 2%nat; 2%nat] [1#2; 1#3; 3#4]; clean j') = Ok sq.
 Proof. vm_compute. reflexivity. Qed.
-Example C15_refuted_equal_nodes :
+(* F15 / F15c repaired: repeated and nearly equal parameters of one segment are merged *)
+Example C15_equal_nodes_merged :
   let sq := [[(0,0);(2,0)];[(2,0);(2,2)];[(2,2);(0,2)];[(0,2);(0,0)]] in
-  Jordan.split sq [0%nat; 0%nat] [1#2; 1#2] = Err EIndex.
+  Jordan.split sq [0%nat; 0%nat; 0%nat] [1#2; 1#2; 50000000000000001#100000000000000000] =
+  Jordan.split sq [0%nat] [1#2].
 Proof. vm_compute. reflexivity. Qed.
